@@ -132,7 +132,8 @@ func runC04(c *Ctx) {
 	}
 	c.R.OK(r1, "router-side packages", fmt.Sprintf("enumerated %d single-result assertions and %d list index sites", nAssert, nIndex), "-", "")
 	c.R.Check(nIndex >= 20, r1, "router-side packages", "list index sites enumerated", "-", fmt.Sprintf("only %d message-list index sites found; 20 were confirmed by reading", nIndex))
-	c.R.Floor(r1, 22)
+	ruleListToMsgBounded(c, r1) // a frame with surplus elements must not panic the transport's receive goroutine
+	c.R.Floor(r1, 26)
 
 	const r2 = "C04.R2 transports never deliver a nil message"
 	ruleNoNilMessage(c, r2)
@@ -196,7 +197,8 @@ func runC04(c *Ctx) {
 		c.Guard(r3, f, "nil-argument panic", `^panic:`, 1, clause("an argument is nil", T(`^\(%\w+ == nil\)$`)))
 	}
 	c.Guard(r3, dlr+"syncRemoveSession", "invariant panic", `^panic:`, 1, clause("registration id unknown", F(`^\(call:router\.\(\*dealer\)\.syncDelCalleeReg\(.*\)#1 == nil\)$`)))
-	c.R.Floor(r3, 25)
+	ruleFailCall(c, r3) // call tables stay consistent: syncCall dereferences the invocation a call->invocation entry names
+	c.R.Floor(r3, 33)
 
 	// R4: who may close a peer
 	const r4 = "C04.R4 a session's peer is closed only by its reviewed owners"
